@@ -3,7 +3,6 @@ package sim
 import (
 	"context"
 	"encoding/json"
-	"errors"
 	"fmt"
 	"sort"
 	"strconv"
@@ -103,7 +102,9 @@ const (
 
 func (k FaultKind) String() string { return [...]string{"", "b", "a", "c"}[k] }
 
-var ErrInjected = errors.New("injected fault")
+// ErrInjected: what a failing adapter call returns. It wraps context.DeadlineExceeded, as a driver or broker i/o timeout does: to
+// the library it is an error like any other (only context.Canceled under a cancelled role means "stop").
+var ErrInjected = fmt.Errorf("injected fault: %w", context.DeadlineExceeded)
 
 // Env is everything the environment chooses during one operation.
 type Env struct {
